@@ -8,8 +8,9 @@ CONSTANTS
   BugUseFlagAll = FALSE
   BugOptionalOrigState = FALSE
   BugNames = "none"
+  BugErrorState = "none"
   BugMissingIsOther = FALSE
   BugUsage = "none"
 VIEW View
-INVARIANTS TypeOK FamilyTerminates ConsumedExactlyOnce OptionValueNotPositional FlagNeverFails HelpLaw SuccessLeavesNothing ErrorKindLaw UsageModelOK
+INVARIANTS TypeOK FamilyTerminates ConsumedExactlyOnce OptionValueNotPositional FlagNeverFails HelpLaw SuccessLeavesNothing ErrorKindLaw ErrorStateLaw UsageModelOK
 CHECK_DEADLOCK FALSE
